@@ -24,6 +24,7 @@ func init() {
 		{Name: "i32.div_u arm appends the div_s opcode", File: "internal/wat/watutil/wat2wasm_instruction.go", Old: "wasm.OpcodeI32DivU)", New: "wasm.OpcodeI32DivS)", Expect: "token-opcode :: i32.div_u"},
 		{Name: "memory.fill loses its memory index byte", File: "internal/wat/watutil/wat2wasm_instruction.go", Old: "wasm.OpcodeMiscMemoryFill, 0x00)", New: "wasm.OpcodeMiscMemoryFill)", Expect: "token-opcode :: memory.fill"},
 		{Name: "two token spellings swapped", File: "internal/wat/token/token.go", Old: "INS_I64_SHR_S:           \"i64.shr_s\",", New: "INS_I64_SHR_S:           \"i64.shr_u\",", Expect: "token-"},
+		{Name: "imported memory built without the max-encoded flag", File: "internal/wat/watutil/wat2wasm.go", Old: "\t\t\t\tIsMaxEncoded: x.Memory.MaxPages > 0,\n", New: "", Expect: "limits-literal-agreement"},
 		{Name: "vendored opcode constant changed", File: "internal/wasm/instruction.go", Old: "OpcodeI64Rotl   Opcode = 0x89", New: "OpcodeI64Rotl   Opcode = 0x8a", Old2: "OpcodeI64Rotr   Opcode = 0x8a", New2: "OpcodeI64Rotr   Opcode = 0x89", Expect: "i64.rotl"},
 		{Name: "i64.load16_s default alignment 4", File: "internal/wat/parser/module_func_instruction.go", Old: "i.Align = 2", New: "i.Align = 4", Nth: 2, Expect: "default-align"},
 		{Name: "findFuncIndex drops the import count", File: "internal/wat/watutil/wat2wasm_helper.go", Old: "return wasm.Index(importCount + i)\n\t\t}\n\t}\n\tpanic(fmt.Sprintf(\"wat2wasm: unknown func", New: "return wasm.Index(i)\n\t\t}\n\t}\n\tpanic(fmt.Sprintf(\"wat2wasm: unknown func", Expect: "index-space :: findFuncIndex"},
@@ -480,7 +481,7 @@ func runC04(c *Ctx) {
 
 	// ---- rule 4: index spaces
 	c04IndexSpaces(c, p, wu)
-	// ---- rule 6: label resolution; rule 7: per-iteration pointers
+	c04LimitsLiterals(c, p, wu)	// ---- rule 6: label resolution; rule 7: per-iteration pointers
 	c04LabelScope(c, p, wu)
 	c04PointerAliasing(c, p, wu, p.Pkg("internal/wasm/binary"))
 	// ---- rule 8: signedness of every LEB128 immediate
